@@ -29,7 +29,7 @@ class C14(Check):
         "distinct by digest of (text, unknown names)."
     )
     assumptions = ["shake_128/shake_256 are advertised but variable-length and outside the statement", "advertised set = hashlib.algorithms_guaranteed | {MD5, SHA-256, CRC-64-AVRO}"]
-    required_labels = ["text:empty", "text:non-ascii", "text:canonical-form", "unknown-name", "hashlib-accepts-unadvertised", "crc-leading-zero-byte", "text:len>=65536"]
+    required_labels = ["text:empty", "text:non-ascii", "text:canonical-form", "unknown-name", "hashlib-accepts-unadvertised", "crc-leading-zero-byte", "text:len>=65536", "text:not-NFC"]
     quick = (1500, 1)
     thorough = (20000, 16)
 
@@ -59,6 +59,11 @@ class C14(Check):
             elif w < 9:
                 text = draw(st.text(alphabet=st.characters(codec="utf-8"), min_size=100, max_size=400))
                 kind = "text"
+            elif w < 10 and d.p(0.5):
+                # texts that Unicode normalisation would change: the digest is over the UTF-8 bytes as given
+                pool = ["e\u0301", "a\u0307\u0323", "\u212b", "\u2126", "\u1112\u1161\u11ab", "\uf900", "\u00e9", "\ufb01", "\u0041\u030a", "x"]
+                text = "".join(d.choice(pool) for _ in range(d.rng(1, 6)))
+                kind = "text"
             else:
                 text = "text-%d" % d.rng(0, 10**6)
                 kind = "text"
@@ -82,6 +87,8 @@ class C14(Check):
         for n in (3 * 65536, 65536 + 64):
             yield {"text": "xyz" * (n // 3) + "x" * (n % 3), "kind": "text", "unknown": []}
         yield {"text": "", "kind": "text", "unknown": NEAR}
+        for t in ("e\u0301", "\u212b\u2126", "\u1112\u1161\u11ab", "\uf900", '{"name":"caf\u0065\u0301","type":"fixed","size":1}'):
+            yield {"text": t, "kind": "text", "unknown": []}
         yield {"text": '"int"', "kind": "canonical-form", "unknown": []}
         # texts whose CRC has a zero high byte (hex must still be 16 digits): search deterministically
         found = 0
@@ -103,6 +110,9 @@ class C14(Check):
             labels.add("text:non-ascii")
         if len(text) >= 65536:
             labels.add("text:len>=65536")
+        import unicodedata
+        if unicodedata.normalize("NFC", text) != text:
+            labels.add("text:not-NFC")
         want = canon.rabin_hex_le(raw, self.visited)
         if want.endswith("00"):
             labels.add("crc-leading-zero-byte")
